@@ -2,6 +2,9 @@
 //@ spec
     ensures
         match self.manifest { Some(m) => res == Some(&m), None => res is None },
+//@ fn StoredPoint::is_new
+//@ spec
+    ensures res == self.is_new,
 //@ fn StoredPoint::reject
 //@ spec
     ensures
